@@ -298,4 +298,180 @@ theorem needed_kept (G : Graph) (Q : Query) (h : (keepSet G Q).oof = false) (t :
     obtain ⟨ds, hds, hall⟩ := keepSet_nodup_and_closed G Q h hf _ ht hit
     exact hall _ (pubDeps_complete G _ _ ds hds _ hp) ih hto
 
+/-! ### fuel: with a terminating `publicDependencies` no bound of the model is ever reached -/
+
+theorem pubFold_nodes (G : Graph) (hwf : GWF G) (fuel t : Nat) (ht : t ∈ G.nodes)
+    (ih : ∀ m ds', m ∈ G.nodes → pubDeps G fuel m = some ds' → ∀ d ∈ ds', d ∈ G.nodes) :
+    ∀ (ds : List Nat) (acc out : List Nat), (∀ d ∈ ds, d ∈ G.nodes) → (∀ x ∈ acc, x ∈ G.nodes) →
+      pubFold G fuel t ds (some acc) = some out → ∀ x ∈ out, x ∈ G.nodes := by
+  intro ds
+  induction ds with
+  | nil =>
+    intro acc out _ hacc h
+    simp only [pubFold, List.foldl_nil, Option.some.injEq] at h
+    subst h; exact hacc
+  | cons d ds ihl =>
+    intro acc out hds hacc h
+    simp only [pubFold, List.foldl_cons] at h
+    have hd : d ∈ G.nodes := hds d (List.mem_cons_self ..)
+    have hds' : ∀ d' ∈ ds, d' ∈ G.nodes := fun d' h' => hds d' (List.mem_cons_of_mem _ h')
+    by_cases hc : G.pl d = G.pl t
+    · have hb : (G.pl d == G.pl t) = true := by simp [hc]
+      simp only [hb, ite_true] at h
+      cases hp : pubDeps G fuel d with
+      | none =>
+        rw [hp] at h
+        simp only [Option.map_none] at h
+        have := pubFold_none G fuel t ds
+        simp only [pubFold] at this
+        rw [this] at h; cases h
+      | some dl =>
+        rw [hp] at h
+        simp only [Option.map_some] at h
+        apply ihl (acc ++ dl) out hds' _ h
+        intro x hx
+        rcases List.mem_append.mp hx with hx | hx
+        · exact hacc x hx
+        · exact ih d dl hd hp x hx
+    · have hb : (G.pl d == G.pl t) = false := by simp [hc]
+      simp only [hb, Bool.false_eq_true, ite_false] at h
+      apply ihl (acc ++ [d]) out hds' _ h
+      intro x hx
+      rcases List.mem_append.mp hx with hx | hx
+      · exact hacc x hx
+      · simp only [List.mem_singleton] at hx; subst hx; exact hd
+
+/-- public dependencies of a target are targets -/
+theorem pubDeps_nodes (G : Graph) (hwf : GWF G) : ∀ (fuel t : Nat) (ds : List Nat), t ∈ G.nodes →
+    pubDeps G fuel t = some ds → ∀ d ∈ ds, d ∈ G.nodes := by
+  intro fuel
+  induction fuel with
+  | zero => intro t ds _ h; simp [pubDeps] at h
+  | succ fuel ih =>
+    intro t ds ht h
+    rw [pubDeps_succ] at h
+    exact pubFold_nodes G hwf fuel t ht (fun m ds' hm hp => ih m ds' hm hp) (G.decl t) [] ds (hwf t ht).1 (by simp) h
+
+/-- between passes: no repeats, only targets, no bound reached -/
+def KInv (G : Graph) (s : KSt) : Prop := s.keep.Nodup ∧ (∀ x ∈ s.keep, x ∈ G.nodes) ∧ s.oof = false
+
+theorem kinv_add (G : Graph) (hwf : GWF G) {s : KSt} {t : Nat} (hs : KInv G s) (ht : t ∈ G.nodes) :
+    KInv G (addTarget G (G.nodes.length + 1) s t) := by
+  obtain ⟨⟨h1, h2, h3, _⟩, _⟩ := addTarget_fuel G hwf (G.nodes.length + 1) s t ⟨hs.1, hs.2.1, hs.2.2, by omega⟩ ht
+  exact ⟨h1, h2, h3⟩
+
+theorem kinv_testDeps (G : Graph) (hwf : GWF G) (t : Nat) (ht : t ∈ G.nodes) : ∀ (ds : List Nat) (s : KSt),
+    (∀ d ∈ ds, d ∈ G.nodes) → KInv G s → KInv G (testDeps G (G.nodes.length + 1) t ds s) := by
+  intro ds
+  induction ds with
+  | nil => intro s _ h; exact h
+  | cons d ds ih =>
+    intro s hds hs
+    simp only [testDeps]
+    apply ih _ (fun d' h' => hds d' (List.mem_cons_of_mem _ h'))
+    split
+    · exact kinv_add G hwf hs ht
+    · split
+      · exact kinv_add G hwf hs (hds d (List.mem_cons_self ..))
+      · exact hs
+
+theorem kinv_testPass (G : Graph) (hwf : GWF G) (hpd : ∀ t ∈ G.nodes, pubDeps G (G.nodes.length + 1) t ≠ none) :
+    ∀ (ts : List Nat) (s : KSt), (∀ t ∈ ts, t ∈ G.nodes) → KInv G s → KInv G (testPass G (G.nodes.length + 1) ts s) := by
+  intro ts
+  induction ts with
+  | nil => intro s _ h; exact h
+  | cons t ts ih =>
+    intro s hts hs
+    have ht : t ∈ G.nodes := hts t (List.mem_cons_self ..)
+    have hts' : ∀ t' ∈ ts, t' ∈ G.nodes := fun t' h' => hts t' (List.mem_cons_of_mem _ h')
+    simp only [testPass]
+    split
+    · cases hp : pubDeps G (G.nodes.length + 1) t with
+      | none => exact absurd hp (hpd t ht)
+      | some ds =>
+        simp only
+        exact ih _ hts' (kinv_testDeps G hwf t ht ds s (pubDeps_nodes G hwf _ t ds ht hp) hs)
+    · exact ih s hts' hs
+
+theorem kinv_testFix (G : Graph) (hwf : GWF G) (hpd : ∀ t ∈ G.nodes, pubDeps G (G.nodes.length + 1) t ≠ none) :
+    ∀ (k : Nat) (s : KSt), KInv G s → G.nodes.length + 1 ≤ k + s.keep.length →
+      KInv G (testFix G (G.nodes.length + 1) k s) := by
+  intro k
+  induction k with
+  | zero =>
+    intro s hs hk
+    have := PlzVerif.Cycle.nodup_subset_length _ _ hs.1 hs.2.1
+    omega
+  | succ k ih =>
+    intro s hs hk
+    simp only [testFix]
+    have hp := kinv_testPass G hwf hpd G.nodes s (fun _ h => h) hs
+    split
+    · rename_i hne
+      apply ih _ hp
+      -- the pass kept everything and changed the length: it grew
+      have hmono := ((grows_testPass G (G.nodes.length + 1) G.nodes).2 s hp.2.2).1
+      have hle := PlzVerif.Cycle.nodup_subset_length _ _ hs.1 hmono
+      have hne' : (testPass G (G.nodes.length + 1) G.nodes s).keep.length ≠ s.keep.length := by simpa using hne
+      omega
+    · exact hp
+
+/-- On a graph that holds its dependencies, and on which `publicDependencies` terminates within the model's bound
+(true of every acyclic graph), `targetsToRemove` never reaches a bound. -/
+theorem keepSet_fuel (G : Graph) (hwf : GWF G) (Q : Query) (hpd : ∀ t ∈ G.nodes, pubDeps G (G.nodes.length + 1) t ≠ none)
+    (hs : ∀ t ∈ Q.subincs, t ∈ G.nodes) (ha : ∀ t ∈ Q.args, t ∈ G.nodes) : (keepSet G Q).oof = false := by
+  unfold keepSet
+  simp only
+  have hfold : ∀ (ts : List Nat) (s : KSt), (∀ t ∈ ts, t ∈ G.nodes) → KInv G s →
+      KInv G (ts.foldl (fun s t => addTarget G (G.nodes.length + 1) s t) s) := by
+    intro ts
+    induction ts with
+    | nil => intro s _ h; exact h
+    | cons t ts ih =>
+      intro s hts h
+      simp only [List.foldl_cons]
+      exact ih _ (fun t' h' => hts t' (List.mem_cons_of_mem _ h')) (kinv_add G hwf h (hts t (List.mem_cons_self ..)))
+  have h0 : KInv G { keep := [] } := ⟨List.nodup_nil, by simp, rfl⟩
+  have h3 := hfold Q.args _ ha (hfold Q.subincs _ hs (hfold (G.nodes.filter (isRoot G Q)) _ (fun t ht => (List.mem_filter.mp ht).1) h0))
+  split
+  · exact h3.2.2
+  · exact (kinv_testFix G hwf hpd _ _ h3 (Nat.le_add_right _ _)).2.2
+
+/-! ### `publicDependencies` terminates when dependencies inside one rule are acyclic -/
+
+theorem pubFold_some (G : Graph) (fuel t : Nat) : ∀ (ds : List Nat) (acc : List Nat),
+    (∀ d ∈ ds, G.pl d = G.pl t → pubDeps G fuel d ≠ none) → pubFold G fuel t ds (some acc) ≠ none := by
+  intro ds
+  induction ds with
+  | nil => intro acc _; simp [pubFold]
+  | cons d ds ih =>
+    intro acc h
+    simp only [pubFold, List.foldl_cons]
+    by_cases hc : G.pl d = G.pl t
+    · have hb : (G.pl d == G.pl t) = true := by simp [hc]
+      simp only [hb, ite_true]
+      cases hp : pubDeps G fuel d with
+      | none => exact absurd hp (h d (List.mem_cons_self ..) hc)
+      | some dl =>
+        simp only [Option.map_some]
+        exact ih _ (fun d' hd' => h d' (List.mem_cons_of_mem _ hd'))
+    · have hb : (G.pl d == G.pl t) = false := by simp [hc]
+      simp only [hb, Bool.false_eq_true, ite_false]
+      exact ih _ (fun d' hd' => h d' (List.mem_cons_of_mem _ hd'))
+
+/-- a ranking that strictly decreases along dependencies inside one rule (exists on every acyclic graph) -/
+def RuleRank (G : Graph) (rank : Nat → Nat) : Prop := ∀ t d, d ∈ G.decl t → G.pl d = G.pl t → rank d < rank t
+
+theorem pubDeps_terminates (G : Graph) (rank : Nat → Nat) (hr : RuleRank G rank) : ∀ (fuel t : Nat), rank t < fuel →
+    pubDeps G fuel t ≠ none := by
+  intro fuel
+  induction fuel with
+  | zero => intro t h; omega
+  | succ fuel ih =>
+    intro t h
+    rw [pubDeps_succ]
+    apply pubFold_some
+    intro d hd hpl
+    exact ih d (by have := hr t d hd hpl; omega)
+
 end PlzVerif.GC
